@@ -66,57 +66,91 @@ push_harness!(c17_push_9_16, 36, [9, 10, 11, 12, 13, 14, 15, 16], 8);
 push_harness!(c17_push_17_24, 36, [17, 18, 19, 20, 21, 22, 23, 24], 16);
 push_harness!(c17_push_25_32, 36, [25, 26, 27, 28, 29, 30, 31, 32], 24);
 
-const DV: usize = 18;
+const DV: usize = 17;
 
-fn dup_case<const H: usize>(vals: &[U256; DV], d: usize) {
-    let mut s = build(vals, d);
-    match ops::dup::<H>(&mut s) {
-        Ok(()) => {
-            assert!(H <= d && s.len() == d + 1);
-            let t = s.pop();
-            assert!(t.is_ok() && eq(&t.unwrap(), &vals[d - H]));
-        }
-        Err(e) => {
-            assert!(H > d && e.exit_code() == EVM_CONTRACT_STACK_UNDERFLOW);
-        }
+/// All K items of the stack equal `expect[0..K]` (expect[0] deepest) – read with ONE
+/// `pop_many::<K>` (O(1): it only moves the length) and compared limb-wise.
+fn whole_stack_is<const K: usize>(s: &mut Stack, expect: &[U256; DV + 1]) {
+    assert!(s.len() == K);
+    let r = *s.pop_many::<K>().unwrap();
+    let mut j = 0;
+    while j < K {
+        assert!(eq(&r[j], &expect[j]));
+        j += 1;
     }
-    drain_equals(&mut s, vals, d);
+    assert!(s.is_empty());
 }
 
-fn swap_case<const H: usize>(vals: &[U256; DV], d: usize) {
-    let mut s = build(vals, d);
-    match ops::swap::<H>(&mut s) {
+/// A stack of depth D holding vals[0..D]: a clone of the 17-deep base stack (built once with
+/// 17 real `push` calls of fully symbolic words) cut down with one `pop_many`.
+fn at_depth<const CUT: usize>(base: &Stack) -> Stack {
+    let mut s = base.clone();
+    assert!(s.pop_many::<CUT>().is_ok());
+    s
+}
+
+/// DUP<H> on depth D (both literals): Ok iff H <= D; then depth D+1, new top = vals[D-H],
+/// everything below unchanged.  Otherwise STACK_UNDERFLOW and the stack is unchanged.
+fn dup_case<const H: usize, const D: usize, const CUT: usize, const D1: usize>(base: &Stack, vals: &[U256; DV]) {
+    let mut s = at_depth::<CUT>(base);
+    assert!(s.len() == D && D + CUT == DV && D1 == D + 1);
+    let mut expect = [U256([0; 4]); DV + 1];
+    let mut k = 0;
+    while k < DV {
+        expect[k] = vals[k];
+        k += 1;
+    }
+    match ops::dup::<H>(&mut s) {
         Ok(()) => {
-            assert!(H < d);
-            let mut expect = *vals;
-            let t = expect[d - 1];
-            expect[d - 1] = expect[d - 1 - H];
-            expect[d - 1 - H] = t;
-            drain_equals(&mut s, &expect, d);
+            assert!(H <= D);
+            expect[D] = vals[D - H];
+            whole_stack_is::<D1>(&mut s, &expect);
         }
         Err(e) => {
-            assert!(H >= d && e.exit_code() == EVM_CONTRACT_STACK_UNDERFLOW);
-            drain_equals(&mut s, vals, d);
+            assert!(H > D && e.exit_code() == EVM_CONTRACT_STACK_UNDERFLOW);
+            whole_stack_is::<D>(&mut s, &expect);
         }
     }
+}
+
+/// SWAP<H> on depth D: Ok iff H < D; exchanges vals[D-1] and vals[D-1-H] only.
+fn swap_case<const H: usize, const D: usize, const CUT: usize, const D1: usize>(base: &Stack, vals: &[U256; DV]) {
+    let mut s = at_depth::<CUT>(base);
+    assert!(s.len() == D && D + CUT == DV);
+    let mut expect = [U256([0; 4]); DV + 1];
+    let mut k = 0;
+    while k < DV {
+        expect[k] = vals[k];
+        k += 1;
+    }
+    match ops::swap::<H>(&mut s) {
+        Ok(()) => {
+            assert!(H < D);
+            expect[D - 1] = vals[D - 1 - H];
+            expect[D - 1 - H] = vals[D - 1];
+        }
+        Err(e) => {
+            assert!(H >= D && e.exit_code() == EVM_CONTRACT_STACK_UNDERFLOW);
+        }
+    }
+    whole_stack_is::<D>(&mut s, &expect);
 }
 
 macro_rules! height_harness {
     ($name:ident, $case:ident, [$($n:literal),+]) => {
+        /// For every listed height H the depths H-1, H, H+1 (underflow edge, exact, one
+        /// spare) are enumerated; the 17 stack words are fully symbolic.
         #[kani::proof]
         #[kani::unwind(20)]
         fn $name() {
             let vals: [U256; DV] = any_vals();
-            let d: usize = kani::any();
-            kani::assume(d <= 17);
-            let sel: usize = kani::any();
-            match sel {
-                $($n => $case::<$n>(&vals, d),)+
-                _ => kani::assume(false),
-            }
-            kani::cover!(d == sel + 1);
-            kani::cover!(d + 1 == sel);
-            kani::cover!(d == sel);
+            let base = build(&vals, DV);
+            $(
+                $case::<$n, { $n - 1 }, { DV + 1 - $n }, { $n }>(&base, &vals);
+                $case::<$n, { $n }, { DV - $n }, { $n + 1 }>(&base, &vals);
+                $case::<$n, { $n + 1 }, { DV - 1 - $n }, { $n + 2 }>(&base, &vals);
+            )+
+            kani::cover!(vals[0].0[0] != vals[1].0[0]);
         }
     };
 }
@@ -125,24 +159,25 @@ height_harness!(c17_dup_9_16, dup_case, [9, 10, 11, 12, 13, 14, 15, 16]);
 height_harness!(c17_swap_1_8, swap_case, [1, 2, 3, 4, 5, 6, 7, 8]);
 height_harness!(c17_swap_9_16, swap_case, [9, 10, 11, 12, 13, 14, 15, 16]);
 
-/// POP: removes exactly the top item; underflow error on an empty stack.
+/// POP: removes exactly the top item; underflow error on an empty stack (depths 0..=3).
 #[kani::proof]
 #[kani::unwind(10)]
 fn c17_pop() {
-    let vals: [U256; MAXV] = any_vals();
-    let d: usize = kani::any();
-    kani::assume(d <= 3);
-    let mut s = build(&vals, d);
-    match ops::pop(&mut s) {
-        Ok(()) => {
-            assert!(d >= 1);
-            drain_equals(&mut s, &vals, d - 1);
+    let mut d = 0;
+    while d <= 3 {
+        let vals: [U256; MAXV] = any_vals();
+        let mut s = build(&vals, d);
+        match ops::pop(&mut s) {
+            Ok(()) => {
+                assert!(d >= 1);
+                drain_equals(&mut s, &vals, d - 1);
+            }
+            Err(e) => {
+                assert!(d == 0 && e.exit_code() == EVM_CONTRACT_STACK_UNDERFLOW);
+                assert!(s.len() == 0);
+            }
         }
-        Err(e) => {
-            assert!(d == 0 && e.exit_code() == EVM_CONTRACT_STACK_UNDERFLOW);
-            assert!(s.len() == 0);
-        }
+        d += 1;
     }
-    kani::cover!(d == 3);
-    kani::cover!(d == 0);
+    kani::cover!(d == 4);
 }
